@@ -1,4 +1,126 @@
 package corpus
 
-// RandomUnits composes n seeded random schemas from the feature atoms (filled in later).
-func RandomUnits(n int, seed int64) []*Unit { return nil }
+import (
+	"fmt"
+
+	"google.golang.org/protobuf/proto"
+	"google.golang.org/protobuf/types/descriptorpb"
+)
+
+// small deterministic PRNG (the corpus package does not depend on the monitor package)
+type rng struct{ s uint64 }
+
+func (r *rng) next() uint64 {
+	r.s += 0x9E3779B97F4A7C15
+	z := r.s
+	z = (z ^ (z >> 30)) * 0xBF58476D1CE4E5B9
+	z = (z ^ (z >> 27)) * 0x94D049BB133111EB
+	return z ^ (z >> 31)
+}
+func (r *rng) intn(n int) int { return int(r.next() % uint64(n)) }
+func (r *rng) chance(a, b int) bool { return r.intn(b) < a }
+
+// RandomUnits composes n seeded random schemas from the feature atoms: 2-5 messages of up to 10 fields,
+// random kinds, cardinalities, packing, maps, oneofs, nesting, recursion and field numbers.
+// Extensions are left to the systematic units (the generated extension code is a known finding).
+func RandomUnits(n int, seed int64) []*Unit {
+	var out []*Unit
+	for i := 0; i < n; i++ {
+		r := &rng{s: uint64(seed)*7919 + uint64(i)*104729 + 12345}
+		syntax := "proto3"
+		if r.chance(1, 2) {
+			syntax = "proto2"
+		}
+		name := fmt.Sprintf("rnd%02d", i)
+		b := NewUnit(name, syntax, "random")
+		b.u.Origin = "random"
+		b.Atom("random-composition")
+		en := b.Enum("Kind").V("KIND_ZERO", 0).V("KIND_A", 1).V("KIND_B", 5).V("KIND_NEG", -3)
+		nm := 2 + r.intn(4)
+		var msgs []*MsgB
+		for mi := 0; mi < nm; mi++ {
+			var m *MsgB
+			if mi > 0 && r.chance(1, 3) {
+				m = msgs[r.intn(len(msgs))].Nested(fmt.Sprintf("N%d", mi))
+			} else {
+				m = b.Msg(fmt.Sprintf("M%d", mi))
+			}
+			msgs = append(msgs, m)
+		}
+		for mi, m := range msgs {
+			used := map[int32]bool{}
+			num := func() int32 {
+				for {
+					var v int32
+					switch r.intn(6) {
+					case 0:
+						v = int32(16 + r.intn(2000))
+					case 1:
+						v = int32(2048 + r.intn(1<<20))
+					case 2:
+						v = int32(1<<28 + r.intn(1000))
+					default:
+						v = int32(1 + r.intn(15))
+					}
+					if v >= 19000 && v <= 19999 || used[v] {
+						continue
+					}
+					used[v] = true
+					return v
+				}
+			}
+			nf := 1 + r.intn(10)
+			var oneof *OneofB
+			var pending []oneofMember
+			for fi := 0; fi < nf; fi++ {
+				fname := fmt.Sprintf("f%d_%d", mi, fi)
+				t := ScalarTypes[r.intn(len(ScalarTypes))]
+				typeName := ""
+				switch r.intn(8) {
+				case 0:
+					t, typeName = Enum, en.Full()
+				case 1, 2:
+					// reference to any message of the unit (self reference = recursion)
+					t, typeName = Message, msgs[r.intn(len(msgs))].Full()
+				}
+				switch c := r.intn(10); {
+				case c < 4: // singular
+					if t == Message {
+						m.FMsg(fname, num(), typeName, Optional)
+					} else if t == Enum {
+						m.FEnum(fname, num(), typeName, Optional)
+					} else if syntax == "proto2" && r.chance(1, 8) {
+						m.F(fname, num(), t, Required)
+					} else {
+						m.F(fname, num(), t, Optional)
+					}
+				case c < 7: // repeated
+					f := m.add(fname, num(), t, Repeated, typeName)
+					if t != Message && t != String && t != Bytes && r.chance(1, 2) {
+						f.Options = &descriptorpb.FieldOptions{Packed: proto.Bool(r.chance(1, 2))}
+					}
+				case c < 8: // map
+					kt := MapKeyTypes[r.intn(len(MapKeyTypes))]
+					m.Map(fname, num(), kt, t, typeName)
+				default: // oneof member (declared together after the other fields: members must be consecutive)
+					pending = append(pending, oneofMember{fname, num(), t, typeName})
+				}
+			}
+			if len(pending) > 0 {
+				oneof = m.Oneof(fmt.Sprintf("pick%d", mi))
+				for _, pm := range pending {
+					oneof.F(pm.name, pm.num, pm.t, pm.typeName)
+				}
+			}
+		}
+		out = append(out, b.Unit())
+	}
+	return out
+}
+
+type oneofMember struct {
+	name     string
+	num      int32
+	t        FT
+	typeName string
+}
